@@ -19,7 +19,7 @@ using PV = uint32_t;
 #define ESZ 8u
 extern "C" {
 u64 k_esize(); void k_ta_new(void*, PV); void k_tb_new(void*, PV); void k_ta_dtor(void*); void k_tb_dtor(void*); PV k_ta_get(void const*); PV k_tb_get(void const*); void k_ta_set(void*, PV); void k_tb_set(void*, PV);
-u64 k_o_sizeof(); void k_o_dtor(void*); bool k_o_has(void const*); PV k_o_val(void const*); u64 k_o_off(void const*);
+u64 k_o_alt_off(); u64 k_v_alt_off(); u64 k_x_alt_off(); u64 k_o_sizeof(); void k_o_dtor(void*); bool k_o_has(void const*); PV k_o_val(void const*); u64 k_o_off(void const*);
 void k_o_default(void*); void k_o_nullopt(void*); void k_o_inplace(void*, PV); void k_o_from_src(void*, PV); void k_o_from_os(void*, bool, PV); void k_o_from_os_move(void*, bool, PV);
 void k_o_move_ctor(void*, void*); void k_o_from_ta_move(void*, void*); void k_o_assign_nullopt(void*); void k_o_move_assign(void*, void*); void k_o_assign_src(void*, PV);
 void k_o_assign_os(void*, bool, PV); void k_o_assign_os_move(void*, bool, PV); void k_o_assign_ta_move(void*, void*); void k_o_emplace(void*, PV); void k_o_reset(void*);
@@ -51,7 +51,7 @@ struct S { // model of a sum object: active index (optional: 0 empty / 1 engaged
 static inline void* el_make(unsigned i, PV x, unsigned r)
 {
     void* e = d_sym_block(ESZ);
-    lg_register(r, e, ESZ);
+    lg_register(r, e, ESZ); lg_layout(r, 0, ESZ);
     if (i == 0) k_ta_new(e, x); else if (i == 1) k_tb_new(e, x);
     lg_expect(r, 0, i < 2 ? 1 : 0, ESZ, i + 1);
     return e;
@@ -70,7 +70,7 @@ static inline void el_fin(void* e, unsigned i, unsigned r)
 // =====================================================================================================================
 // optional<TA>
 // =====================================================================================================================
-static inline void* o_raw(unsigned r) { void* p = d_sym_block(k_o_sizeof()); lg_register(r, p, k_o_sizeof()); return p; }
+static inline void* o_raw(unsigned r) { void* p = d_sym_block(k_o_sizeof()); lg_register(r, p, k_o_sizeof()); lg_layout(r, k_o_alt_off(), ESZ); vf_led.nslot[r] = 1; return p; }
 static inline void o_check(void* p, S const& s, unsigned r)
 {
     bool h = k_o_has(p);
@@ -191,7 +191,7 @@ O_BIN(swap_free, k_o_swap_free(p, q); o_check(p, sq, 0); o_check(q, sp, 1); o_fi
 // =====================================================================================================================
 // variant<TA, TB, int>
 // =====================================================================================================================
-static inline void* v_raw(unsigned r) { void* p = d_sym_block(k_v_sizeof()); lg_register(r, p, k_v_sizeof()); return p; }
+static inline void* v_raw(unsigned r) { void* p = d_sym_block(k_v_sizeof()); lg_register(r, p, k_v_sizeof()); lg_layout(r, k_v_alt_off(), ESZ); vf_led.nslot[r] = 1; return p; }
 static inline void v_pattern(void* p, u64 i, unsigned r) { lg_expect(r, i < 2 ? k_v_off(p) : 0, i < 2 ? 1 : 0, ESZ, (unsigned)i + 1); lg_quiet(); }
 static inline void v_check(void* p, S const& s, unsigned r)
 {
@@ -293,7 +293,7 @@ V_BIN(rel, (void)k_v_rel(p, q); v_check(p, sp, 0); v_check(q, sq, 1); v_fin(p, 0
 // =====================================================================================================================
 // expected<TA, TB>: model index 0 = value (TA), 1 = error (TB)
 // =====================================================================================================================
-static inline void* x_raw(unsigned r) { void* p = d_sym_block(k_x_sizeof()); lg_register(r, p, k_x_sizeof()); return p; }
+static inline void* x_raw(unsigned r) { void* p = d_sym_block(k_x_sizeof()); lg_register(r, p, k_x_sizeof()); lg_layout(r, k_x_alt_off(), ESZ); vf_led.nslot[r] = 1; return p; }
 static inline void x_pattern(void* p, bool h, unsigned r) { lg_expect(r, k_x_off(p), 1, ESZ, h ? 1 : 2); lg_quiet(); }
 static inline void x_check(void* p, S const& s, unsigned r)
 {
